@@ -377,9 +377,6 @@ Definition plot_lightness_with (hid : nat -> nat -> bool) (f : pfield) (mu : mul
   do _ <- filter_ok flt;
   do _ <- filter_ok lf;
   do mp <- setup_multiplier (preg f) mu;
-  (* faithful: hls2rgb(...).squeeze() drops a length-1 mesh axis, the filter mask then no longer
-     fits -> IndexError (finding C20-lightness-single-cell-axis) *)
-  if (k0 =? 1)%nat || (k1 =? 1)%nat then Err IndexE else
   let lights := match lf with Some a => [lf_light a] | None => snd hl end in
   if (length lights =? 0)%nat then Err KeyE else
   OK (map (fun light =>
